@@ -610,6 +610,27 @@ def hypothesis_case(acc, case):
     if not lr >= -2 * TOL:
         acc.fail(f"hypothesis app {what}: negative LR [local={case['local']}]", case,
                  {"LR": lr, "null_lnL": float(res.null.lnL), "alt_lnL": float(res.alt.lnL), "models": what})
+    # the result hands out its likelihood functions: after more fitting through them it reports what they hold then
+    try:
+        if len(res.alt) != 1:
+            return
+        float(res.alt.lnL)
+        alf = res.alt.lf
+        alf.optimise(local=True, max_evaluations=(case["max_evaluations"] or 10) + 20, limit_action="ignore", show_progress=False)
+        held = float(alf.lnL)
+        reported = float(res.alt.lnL)
+        lr2 = float(res.LR)
+        null_now = float(res.null.lf.lnL)
+    except Exception as e:  # noqa: BLE001
+        acc.fail(f"hypothesis result: fitting on through the function it hands out raised {type(e).__name__}", case, {"error": str(e)[:300], "models": what})
+        return
+    acc.outcome((what, "refit", round(held - reported, 6)))
+    if not abs(held - reported) <= TOL * max(1.0, abs(held)):
+        acc.fail("hypothesis result: lnL reported for the alternative is not the lnL of the function it handed out [after more fitting through .lf]", case,
+                 {"reported": reported, "function": held, "models": what})
+    elif not abs(lr2 - 2 * (held - null_now)) <= 4 * TOL * max(1.0, abs(held)):
+        acc.fail("hypothesis result: LR is not twice the difference of the lnL the two functions hold [after more fitting through .lf]", case,
+                 {"LR": lr2, "alt": held, "null": null_now, "models": what})
 
 
 def run_binned(spec, acc):
